@@ -104,6 +104,15 @@ CHECKS = {
              "checks finiteness, 0 <= (emax-max)/s <= ln n, the shift law and axes = segments.",
         note="TLA+ has no exp/log: outside the exact family only the laws are decided; observations are normalised by the driver.",
         technique="TLC trace validation on an exactly solvable family + algebraic laws with rational bounds", ref="§6 C20"),
+    "C12": dict(
+        text="MC_Lifecycle: the life-cycle state machine (grids -> Model -> get_lcm_function -> first solve -> first simulate) "
+             "rejects every one of the 2^8 sets of violated rules at an early stage and completes otherwise; the same rule sets "
+             "are applied to 4 base templates and replayed (stage reached and exception class recorded at every step, error path "
+             "included); TLC (Lifecycle!LifecycleClause) accepts only early rejection with the three allowed error classes. "
+             "Converse: a catalogue of accepted-but-unusual shapes and random accepted models must solve and simulate.",
+        note="Six accepted shapes that crash later are listed in known_findings.json (D5, D6, D8, D12, D14, D15) and reported as "
+             "KNOWN-FINDING; any other late failure is a violation.",
+        technique="TLC enumeration of rule-violation sets + replay of the life cycle + TLC trace validation", ref="§6 C12"),
 }
 REASON_PENDING = "check under construction in this round (DESIGN.md §10); not yet claimed"
 
